@@ -358,10 +358,13 @@ def build_harness(hid, shims=None, race=False, tags=None):
             repl[os.path.join(REPO, "internal", "verifharness", "common", nm)] = os.path.join(cdir, nm)
     for rel, src in (shims or {}).items():
         repl[os.path.join(REPO, rel)] = os.path.join(VERIF, src)
-    ov = os.path.join(BUILD, "overlay-%s.json" % hid)
+    # a run against a private copy of the repository (VERIF_REPO, used for seeded changes) must not
+    # overwrite the binaries of runs against /repo
+    alt = "" if REPO == "/repo" else "-alt" + hashlib.sha256(REPO.encode()).hexdigest()[:8]
+    ov = os.path.join(BUILD, "overlay-%s%s.json" % (hid, alt))
     with open(ov, "w") as f:
         json.dump({"Replace": repl}, f, indent=1)
-    exe = os.path.join(BUILD, "harness-%s%s" % (hid, "-race" if race else ""))
+    exe = os.path.join(BUILD, "harness-%s%s%s" % (hid, "-race" if race else "", alt))
     cmd = ["go", "build", "-overlay", ov, "-o", exe]
     if race:
         cmd.append("-race")
@@ -369,7 +372,7 @@ def build_harness(hid, shims=None, race=False, tags=None):
         cmd += ["-tags", tags]
     cmd.append("./internal/verifharness/" + hid)
     t0 = time.time()
-    with Lock("go-" + hid):
+    with Lock("go-" + hid + alt):
         p = run(cmd, cwd=REPO, env=go_env(), timeout=1800, check=False)
     if p.returncode != 0:
         raise CheckFailure("harness build failed (correspondence cannot be established):\n" + p.stdout[-6000:])
